@@ -38,6 +38,7 @@ func runC13(ctx *core.Ctx) {
 	ctx.Rule("T4", "only stale entries: every os.Remove on the trim path is dominated by a successful os.Stat of the very path removed and by ModTime().Before(cutoff) being true", 1)
 	ctx.Rule("T5", "only cache entries: every os.Remove on the trim path is reached only for a directory entry whose name ends in -a or -d, inside one of the 256 two-hex-digit sub-directories of the cache directory", 2)
 	ctx.Rule("T6", "record: when trimming completes trim.txt is written through lockedfile.Write with now.Unix() in decimal, after all sub-directories were scanned, and its error is returned", 1)
+	ctx.Rule("T8", "completeness of a due trim: the sub-directory counter takes exactly the values 0..255 (a counted loop with constant bounds and no other exit), and the loop over a sub-directory's listing runs from its first name to its length with no other exit, so no stale entry is skipped before the trim is recorded as done", 2)
 	ctx.Rule("T7", "use refreshes: every successful index lookup calls used() on the index file; GetFile/GetBytes obtain the data path only through OutputFile, which calls used() on the name it returns; used() updates the mtime unless Stat succeeded and the age is below mtimeInterval", 5)
 
 	// ---- T1
@@ -190,6 +191,17 @@ func runC13(ctx *core.Ctx) {
 			}
 		}
 		ctx.Check(okSub, "T5", "cache.Trim#subdir", rc.Pos(), "only <cache dir>/<two hex digits> sub-directories are scanned (trim.txt, README and fuzz/ at top level are out of reach)")
+		// T8: all 256 of them
+		if okSub {
+			sp := variadicElems(sub.(*ssa.Call).Call.Args[0])[1].(*ssa.Call)
+			ops := variadicElems(sp.Call.Args[1])
+			if len(ops) == 1 {
+				lo, hi, why := bodyRange(g, rc, ssax.Strip(ops[0]))
+				ctx.Check(why == "" && lo == 0 && hi == 256, "T8", "cache.Trim#all-subdirs", rc.Pos(), "the sub-directory number takes every value 0..255 before the trim is recorded (found [%d,%d) %s)", lo, hi, why)
+			} else {
+				ctx.Bad("T8", "cache.Trim#all-subdirs", rc.Pos(), "sub-directory name has %d operands", len(ops))
+			}
+		}
 	}
 	// ---- T4/T5 in the scan function
 	if scan != nil {
@@ -269,6 +281,35 @@ func runC13(ctx *core.Ctx) {
 					okList = false // a positive count lists only part of the directory
 				}
 			}
+		}
+		// T8: the removal loop visits every listed name
+		for k, rm := range sg.Calls("os.Remove", "os.RemoveAll") {
+			l, inLoop := innermostLoop(sg, rm.Block().Index)
+			why := ""
+			if !inLoop {
+				why = "the removal is not in a loop over the listing"
+			} else {
+				for _, ex := range loopExits(sg, l) {
+					ce, ok := exitIsCounted(sg, l, ex[0], ex[1])
+					if !ok {
+						why = "the loop can be left through b" + itoa(ex[0]) + " before every name was visited"
+						break
+					}
+					ln, isLen := ce.Bound.(*ssa.Call)
+					if !isLen || !isBuiltinCall(ln, "len") || !ssax.DerivedFrom(ln.Call.Args[0], func(v ssa.Value) bool {
+						c, ok := v.(*ssa.Call)
+						return ok && (ssax.CalleeName(&c.Call) == "(*os.File).Readdirnames" || ssax.CalleeName(&c.Call) == "os.ReadDir")
+					}, nil) {
+						why = "the loop bound is not the length of the directory listing"
+						break
+					}
+					if a, isK := ssax.ConstInt(ce.Init); !isK || a+ce.E != 0 {
+						why = "the loop does not start at the first name"
+						break
+					}
+				}
+			}
+			ctx.Check(why == "", "T8", shortFn(scan)+"#every-name"+itoa(k+1), rm.Pos(), "the scan considers every listed name: its loop runs from the first name to the length of the listing and has no other exit %s", why)
 		}
 		ctx.Check(okList, "T5", shortFn(scan)+"#list-then-remove", scan.Pos(), "all names of the sub-directory are read (Readdirnames(-1)) before the first removal, so removals cannot disturb the listing and every stale entry is seen")
 	}
